@@ -30,6 +30,7 @@ import (
 type Audit struct {
 	MapRangeSites []string `json:"map_range_sites"`
 	TickPoints    int      `json:"tick_points"`
+	CopyCharges   int      `json:"string_copy_charges"`
 	GoStmts       []string `json:"go_statements_owned"`
 	PrintCalls    int      `json:"stdout_calls_owned"`
 	FsCalls       []string `json:"fs_calls_owned"`
@@ -264,6 +265,17 @@ func rewriteFile(p *packages.Package, f *ast.File, audit *Audit, siteCount map[s
 			n.Body.List = append([]ast.Stmt{tickStmt()}, n.Body.List...)
 			audit.TickPoints++
 			changed = true
+		case *ast.AssignStmt:
+			// s += t (or s = s + t) on a string copies all of s: charge simulated time for the copy, one tick per 64
+			// bytes, so that a loop that keeps growing a string cannot outlast its tick budget by getting slower
+			if x := grownString(info, n); x != nil {
+				if _, inList := c.Parent().(*ast.BlockStmt); inList || isCaseParent(c.Parent()) {
+					c.InsertAfter(&ast.ExprStmt{X: &ast.CallExpr{Fun: sel("simrt", "TickN"), Args: []ast.Expr{
+						&ast.BinaryExpr{X: &ast.CallExpr{Fun: ast.NewIdent("len"), Args: []ast.Expr{x}}, Op: token.SHR, Y: &ast.BasicLit{Kind: token.INT, Value: "6"}}}}})
+					audit.CopyCharges++
+					changed = true
+				}
+			}
 		case *ast.LabeledStmt:
 			switch n.Stmt.(type) {
 			case *ast.ForStmt, *ast.RangeStmt, *ast.SwitchStmt, *ast.TypeSwitchStmt, *ast.SelectStmt:
@@ -385,6 +397,54 @@ func rewriteFile(p *packages.Package, f *ast.File, audit *Audit, siteCount map[s
 		return true
 	})
 	return changed
+}
+
+// grownString returns the (side-effect free) string operand that the statement grows, or nil.
+func grownString(info *types.Info, n *ast.AssignStmt) ast.Expr {
+	if len(n.Lhs) != 1 || len(n.Rhs) != 1 {
+		return nil
+	}
+	x := n.Lhs[0]
+	pure := func(e ast.Expr) bool {
+		for {
+			switch v := e.(type) {
+			case *ast.Ident:
+				return v.Name != "_"
+			case *ast.SelectorExpr:
+				e = v.X
+			default:
+				return false
+			}
+		}
+	}
+	if !pure(x) {
+		return nil
+	}
+	t := info.TypeOf(x)
+	if t == nil {
+		return nil
+	}
+	if b, ok := t.Underlying().(*types.Basic); !ok || b.Info()&types.IsString == 0 {
+		return nil
+	}
+	switch n.Tok {
+	case token.ADD_ASSIGN:
+		return x
+	case token.ASSIGN:
+		// s = s + ...
+		e := n.Rhs[0]
+		for {
+			be, ok := e.(*ast.BinaryExpr)
+			if !ok || be.Op != token.ADD {
+				break
+			}
+			e = be.X
+		}
+		if e != n.Rhs[0] && types.ExprString(e) == types.ExprString(x) {
+			return x
+		}
+	}
+	return nil
 }
 
 func derefNamed(t types.Type) (*types.Named, bool) {
